@@ -130,7 +130,10 @@ def elabB : Expr → Option BoolE
       | some k, some x, some y => some (.like k x y)
       | _, _, _ => none
   | .ident ⟨c, []⟩ => if colKindOf c == some .bool then some (.col c) else none
-  | .lit .bool v => if v == "true".toList then some (.lit true) else if v == "false".toList then some (.lit false) else none
+  | .lit .bool v =>
+      -- the Boolean keywords in any ASCII letter case (the lexer is case-insensitive and the node keeps the spelling: C19)
+      let lc := v.map (fun c => if 'A' ≤ c ∧ c ≤ 'Z' then Char.ofNat (c.toNat + 32) else c)
+      if lc == "true".toList then some (.lit true) else if lc == "false".toList then some (.lit false) else none
   | _ => none
 
 /-! ### side conditions -/
